@@ -388,3 +388,39 @@ pub fn requestlike_body(len: usize) -> Vec<u8> {
     o.truncate(len);
     o
 }
+
+
+/// Decorations that change nothing about what a request obliges the server to do according to
+/// the reference model, but take different code paths: an expectation the client does not wait
+/// for, a chunked instead of a length-delimited body, HTTP/1.0 with keep-alive, HEAD, long and
+/// empty header values.  Applied by several campaigns to their ordinary requests.
+pub fn spice(g: &mut Rng, mut rq: Req, allow_streaming: bool, allow_head: bool) -> Req {
+    let has_body = !rq.body.is_empty();
+    if has_body && allow_streaming && g.chance(1, 6) {
+        // Content-Length -> chunked with the same payload
+        if let Some(pos) = rq.headers.iter().position(|h| h.0.eq_ignore_ascii_case("Content-Length")) {
+            rq.headers.remove(pos);
+            rq.headers.push(("Transfer-Encoding".into(), "chunked".into()));
+            let sizes = chunk_sizes(g);
+            rq.body = chunk_encode_fancy(&rq.body.clone(), &sizes, g);
+        }
+    }
+    if has_body && allow_streaming && g.chance(1, 6) {
+        rq.headers.push((g.pick(&["Expect", "expect"]).to_string(), g.pick(&["100-continue", "100-Continue"]).to_string()));
+    }
+    if allow_head && !has_body && rq.method == "GET" && g.chance(1, 8) {
+        rq.method = "HEAD".into();
+    }
+    if rq.version == "HTTP/1.1" && g.chance(1, 8) && !rq.headers.iter().any(|h| h.0.eq_ignore_ascii_case("Connection")) {
+        rq.version = "HTTP/1.0".into();
+        rq.headers.push(("Connection".into(), g.pick(&["keep-alive", "Keep-Alive"]).to_string()));
+    }
+    if g.chance(1, 10) {
+        let pos = g.usize(0, rq.headers.len());
+        rq.headers.insert(pos, ("X-Pad".into(), "p".repeat(*g.pick(&[900usize, 1100, 2500]))));
+    }
+    if g.chance(1, 10) {
+        rq.headers.push(("X-Empty".into(), String::new()));
+    }
+    rq
+}
